@@ -216,7 +216,7 @@ def _crossify(draw, cond, typ, pool):
 
 @st.composite
 def rand_case(draw):
-    types = ["int", "long", "float", "double", "date", "time", "timestamp", "string", "uuid", "boolean"]
+    types = ["int", "long", "float", "double", "date", "time", "timestamp", "string", "uuid", "boolean", "binary", "binary"]  # binary: a column type that gets NO bounds
     fields = draw(tbl.schema_fields(1, 3, types=types, allow_required=False))
     nfiles = draw(st.integers(2, 6))
     files = [draw(tbl.rows_for(fields, 0, 4, small=draw(st.booleans()))) for _ in range(nfiles)]
